@@ -102,8 +102,26 @@ func (c *Collection) Bounds() (minX, minY, maxX, maxY float64) {
 	if left == nil {
 		return
 	}
-	return left.Rect().Min.X, bottom.Rect().Min.Y,
-		right.Rect().Max.X, top.Rect().Max.Y
+	minX, minY = left.Rect().Min.X, bottom.Rect().Min.Y
+	maxX, maxY = right.Rect().Max.X, top.Rect().Max.Y
+	// The index holds float32 rectangles: other items may share an extreme
+	// float32 coordinate and reach a little further in float64.
+	lo, hi := rtreeRect(geometry.Rect{
+		Min: geometry.Point{X: minX, Y: minY},
+		Max: geometry.Point{X: maxX, Y: maxY},
+	})
+	inf := float32(math.Inf(1))
+	exact := func(_, _ [2]float32, o *object.Object) bool {
+		r := o.Rect()
+		minX, minY = math.Min(minX, r.Min.X), math.Min(minY, r.Min.Y)
+		maxX, maxY = math.Max(maxX, r.Max.X), math.Max(maxY, r.Max.Y)
+		return true
+	}
+	c.spatial.Search([2]float32{-inf, -inf}, [2]float32{lo[0], inf}, exact)
+	c.spatial.Search([2]float32{-inf, -inf}, [2]float32{inf, lo[1]}, exact)
+	c.spatial.Search([2]float32{hi[0], -inf}, [2]float32{inf, inf}, exact)
+	c.spatial.Search([2]float32{-inf, hi[1]}, [2]float32{inf, inf}, exact)
+	return minX, minY, maxX, maxY
 }
 
 func (c *Collection) indexDelete(item *object.Object) {
